@@ -87,20 +87,45 @@ theorem scaling_outside (s x : Rat) (h : 1001 / 100000000 < |s - 1|) : scaleF s 
 
 /-! ### combined model -/
 
-/-- `combined_eq_compose`: a combined model is the sequential composition of its parts -/
-theorem combined_eq_compose (ms₁ ms₂ : List M) (sig : List Pixel) :
-    applyAll (ms₁ ++ ms₂) sig = applyAll ms₂ (applyAll ms₁ sig) ∧ applyAll [] sig = sig ∧
-      ∀ m, applyAll [m] sig = m.apply sig := by
-  simp [applyAll, List.foldl_append]
+/-- `combined_eq_compose`: `CombinedModel.__call__` (the executed model `callAll`: values and element type) is the
+sequential composition of its parts -/
+theorem combined_eq_compose (ms₁ ms₂ : List M) (labs : List Nat) (d : DType) (xs : List Rat) :
+    callAll (ms₁ ++ ms₂) labs d xs = callAll ms₂ labs (callAll ms₁ labs d xs).1 (callAll ms₁ labs d xs).2 ∧
+    callAll [] labs d xs = (d, xs) ∧ ∀ m, callAll [m] labs d xs = (m.outDType d, m.call labs xs) := by
+  simp [callAll, List.foldl_append]
 
-/-- … pixel by pixel: every pixel keeps its label and runs through the models in order -/
-theorem combined_pixelwise (ms : List M) (sig : List Pixel) :
-    applyAll ms sig = sig.map fun p => ms.foldl (fun q m => ⟨q.label, m.applyPix q⟩) p := by
-  induction ms generalizing sig with
-  | nil => simp [applyAll]
+/-- … pixel by pixel for label-free models: every value runs through the models in order -/
+theorem combined_pixelwise (ms : List M) (hhom : ∀ m ∈ ms, m.isHet = false) (labs : List Nat) (d : DType) (xs : List Rat) :
+    (callAll ms labs d xs).2 = xs.map fun x => ms.foldl (fun v m => m.applyPix ⟨0, v⟩) x := by
+  induction ms generalizing d xs with
+  | nil => simp [callAll]
   | cons m ms ih =>
-    have : applyAll (m :: ms) sig = applyAll ms (m.apply sig) := rfl
-    rw [this, ih]; simp [M.apply, List.map_map, Function.comp]
+    have hm : m.call labs xs = xs.map fun x => m.applyPix ⟨0, x⟩ := by
+      cases m <;> simp_all [M.call, M.isHet]
+    have : callAll (m :: ms) labs d xs = callAll ms labs (m.outDType d) (m.call labs xs) := rfl
+    rw [this, ih (fun m' h => hhom m' (by simp [h])), hm]
+    simp [List.map_map, Function.comp]
+
+/-- **extra call arguments** (`CombinedModel.__call__(img, *args)`, the `co_argcount != 2` branch): a parameter
+model is handed no extra argument, a `StaticThresholdModel` exactly the first one (its mask); so a combination of
+parameter models ignores `args` altogether (it is `callAll`), the call composes over concatenation with the
+same `args`, and a threshold stage is thresholding with the mask `args[0]` (none if no extra argument). -/
+theorem combined_extra_args (ms : List M) (sts₁ sts₂ : List Stage) (labs : List Nat) (args : List (List Bool))
+    (d : DType) (xs : List Rat) (lo : Rat) (hi : Option Rat) (rf : Bool) :
+    callStages (ms.map Stage.model) labs args d xs = callAll ms labs d xs ∧
+    callStages (sts₁ ++ sts₂) labs args d xs
+      = callStages sts₂ labs args (callStages sts₁ labs args d xs).1 (callStages sts₁ labs args d xs).2 ∧
+    callStages [.thrHom lo hi rf] labs args d xs = boolVals (thrFinish rf args.head? (thrHomCall lo hi xs)) := by
+  refine ⟨?_, by simp [callStages, List.foldl_append], ?_⟩
+  · induction ms generalizing d xs with
+    | nil => simp [callStages, callAll]
+    | cons m ms ih =>
+      have h1 : callStages ((m :: ms).map Stage.model) labs args d xs
+          = callStages (ms.map Stage.model) labs args (m.outDType d) (m.call labs xs) := by
+        simp [callStages, Stage.call, Stage.extraArity]
+      have h2 : callAll (m :: ms) labs d xs = callAll ms labs (m.outDType d) (m.call labs xs) := rfl
+      rw [h1, h2, ih]
+  · cases args <;> simp [callStages, Stage.call, Stage.extraArity]
 
 /-- `routing_all`: with at least `Σ num_parameters` entries, updating "all" succeeds and gives model `i`
 exactly the `i`-th consecutive slice of the flat vector (slice lengths = the models' `num_parameters`);
@@ -136,7 +161,8 @@ theorem routing_one (m : M) (ps : List Rat) (dofs : DofSpec) (k : Nat) (hk : m.c
     (hlen : k ≤ ps.length) : m.update ps dofs = .ok (m.withDofs (ps.take k) dofs, k) :=
   m.update_eq ps dofs k hk hlen
 
-/-- the dof dispatch of the model (which dof sets are accepted, how many parameters they select) is the
+/-- (tie check: generated table vs the model's `consumed`; that `M.update` consumes exactly `consumed` entries is
+`routing_one`) the dof dispatch of the model (which dof sets are accepted, how many parameters they select) is the
 one of the classes: tabulated from `update_model_parameters` for every class × every subset of the dof
 vocabulary, and for `None` and `"all"`. -/
 theorem dispatch_matches_code : ∀ k ∈ Kind.all,
@@ -218,15 +244,42 @@ theorem unique_labels (labs : List Nat) :
   ⟨uniqSorted_pairwise labs, uniqSorted_nodup labs, fun l => mem_uniqSorted l labs⟩
 
 /-- **`hetero_loop_eq_homog_on_label`**: `HeterogeneousLinearModel.__call__` as coded — `result = zeros`, then one
-masked assignment `result[labels == label] = (scaling[i]·img + offset[i])[…]` per unique label — returns at
-every pixel the homogeneous `LinearModel(scaling[j], offset[j])` of that pixel's label, `j` being the label's
-position among the sorted unique labels; and every pixel's label has such a position (nothing stays 0). -/
-theorem hetero_loop_eq_homog_on_label (L : Nat) (s o : List Rat) (labs : List Nat) (xs : List Rat)
-    (hl : labs.length = xs.length) :
-    hetCall s o labs xs = List.zipWith (fun l x => match idxIn (uniqSorted labs) l with
-      | some j => (M.linear (listGetD s j 0) (listGetD o j 0)).applyPix ⟨j, x⟩ | none => 0) labs xs ∧
-    ∀ l ∈ labs, ∃ j, idxIn (uniqSorted labs) l = some j ∧ j < (uniqSorted labs).length :=
-  ⟨hetCall_eq_pointwise L s o labs xs hl, fun l h => label_has_index labs l h⟩
+masked assignment `result[cached_labels == label] = (scaling[i]·img + offset[i])[…]` per entry `(i, label)` of
+`enumerate(self.unique_labels)` (the unique labels `u` of the ORIGINAL map, any list without repetition) — returns
+at every pixel the homogeneous `LinearModel(scaling[j], offset[j])` of that pixel's label, `j` being the label's
+position in `u`; pixels whose label is not in `u` stay 0. -/
+theorem hetero_loop_eq_homog_on_label (L : Nat) (u : List Nat) (hu : u.Nodup) (s o : List Rat) (labs : List Nat)
+    (xs : List Rat) (hl : labs.length = xs.length) :
+    hetCall u s o labs xs = List.zipWith (fun l x => match idxIn u l with
+      | some j => (M.linear (listGetD s j 0) (listGetD o j 0)).applyPix ⟨j, x⟩ | none => 0) labs xs :=
+  hetCall_eq_pointwise L u hu s o labs xs hl
+
+/-- **composition with the label cache**: after ANY sequence of earlier calls, a call with a signal of shape
+`H × W` computes `hetCallResized`: the loop over the ORIGINAL unique labels on the label map
+`labelsFor labels H W` (original, or nearest-neighbour resize of the original). Every pixel gets the linear model
+of its label's position among the ORIGINAL labels — also when the resize has dropped other labels — and every
+label in force has such a position. -/
+theorem hetero_call_after_any_history (dev : Dev) (hd : DevOk dev = true) (labels : List (List Nat)) (w : Nat)
+    (hh : 0 < labels.length) (hw0 : 0 < w) (hrect : ∀ row ∈ labels, row.length = w)
+    (hw : (listGetD labels 0 []).length = w) (shapes : List (Nat × Nat)) (H W : Nat)
+    (hpos : ∀ sh ∈ shapes, 0 < sh.1) (hH : 0 < H) (s o : List Rat) (xs : List Rat)
+    (hl : (labelsFor dev labels H W).flatten.length = xs.length) :
+    cacheRun dev labels (shapes ++ [(H, W)]) = labelsFor dev labels H W ∧
+    hetCallResized dev labels s o H W xs = List.zipWith (fun l x => match idxIn (uniqSorted labels.flatten) l with
+      | some j => linF (listGetD s j 0) (listGetD o j 0) x | none => 0) (labelsFor dev labels H W).flatten xs ∧
+    ∀ l ∈ (labelsFor dev labels H W).flatten, ∃ j, idxIn (uniqSorted labels.flatten) l = some j := by
+  refine ⟨cacheRun_last dev hd labels w hrect hw shapes H W hpos hH, ?_, ?_⟩
+  · exact hetCall_eq_pointwise 0 _ (uniqSorted_nodup _) s o _ xs hl
+  · intro l hl'
+    have hmem : l ∈ labels.flatten := by
+      unfold labelsFor at hl'
+      split at hl'
+      · exact hl'
+      · obtain ⟨row, hrow, hlr⟩ := List.mem_flatten.mp hl'
+        obtain ⟨srow, hs, hv⟩ := resizeNearest_subset dev labels w H W hh hw0 hrect row hrow l hlr
+        exact List.mem_flatten.mpr ⟨srow, hs, hv⟩
+    obtain ⟨j, hj, _⟩ := label_has_index labels.flatten l hmem
+    exact ⟨j, hj⟩
 
 /-- the label-wise model returns the element type of the homogeneous model (after the `fix:` commit; the tie
 compares the element type of every result) -/
@@ -242,8 +295,12 @@ theorem threshold_ops_eq_clause (lo : Rat) (hi : Option Rat) (rf : Bool) (xs : L
     (∀ mask : List Bool, (thrFinish rf (some mask) (thrHomCall lo hi xs)).2
       = List.zipWith (fun x m => thrHom lo hi (some m) ⟨0, x⟩) xs mask) ∧
     thrHetCall los his labs xs = List.zipWith (fun l x => match idxIn (uniqSorted labs) l with
-      | some j => thrHet los his none ⟨j, x⟩ | none => false) labs xs :=
-  ⟨(thrHom_finish lo hi rf xs).1, (thrHom_finish lo hi rf xs).2, thrHetCall_eq_pointwise los his labs xs hl⟩
+      | some j => thrHet los his none ⟨j, x⟩ | none => false) labs xs ∧
+    (thrFinish rf none (thrHetCall los his labs xs)).2 = thrHetCall los his labs xs ∧
+    (∀ mask : List Bool, (thrFinish rf (some mask) (thrHetCall los his labs xs)).2
+      = List.zipWith (· && ·) (thrHetCall los his labs xs) mask) :=
+  ⟨(thrHom_finish lo hi rf xs).1, (thrHom_finish lo hi rf xs).2, thrHetCall_eq_pointwise los his labs xs hl,
+    by simp [thrFinish], fun mask => by simp [thrFinish]⟩
 
 /-- **`wrapper_loop_eq_model`**: `HeterogeneousModel.__call__` as coded (`output = zeros`,
 `output[mask_i] = model_i(signal[mask_i])`) runs every pixel through the model stored for its label -/
@@ -258,7 +315,8 @@ signal, the use in `MultichromaticTracerAnalysis`): with one interpolation per l
 `ss j` — every pixel of the `(H, W)` result is the plain kernel sum of ITS label's interpolation at that pixel's
 colour. (Label-wise `StaticThresholdModel` documents scalar signals only; `(H, W, C)` there is outside the API.) -/
 theorem wrapper_kernel_on_colour_signal {F : Type} [CommSemiring F] (k : Pt → Pt → F) (ws : Nat → List F)
-    (ss : Nat → List Pt) (labs : List Nat) (pixels : List Pt) (hl : labs.length = pixels.length) :
+    (ss : Nat → List Pt) (_hsup : ∀ j, (ws j).length = (ss j).length ∧ 0 < (ss j).length)
+    (labs : List Nat) (pixels : List Pt) (hl : labs.length = pixels.length) :
     wrapCallG (0 : F) (fun j x => kernelLoop k (ws j) (ss j) x) labs pixels
       = List.zipWith (fun l x => match idxIn (uniqSorted labs) l with
           | some j => plainSum k (ws j) (ss j) x | none => 0) labs pixels := by
@@ -322,9 +380,13 @@ open Darsia.Kern in
 /-- **accelerated evaluation = plain kernel sum** (model of the loop both `linear_combination` implementations
 run: start with `w₀·k(x, s₀)`, accumulate `w_n·k(x, s_n)`), for every kernel function over any commutative
 semiring and every supported signal shape — single pixel `(3,)`, pixel list `(N, 3)`, image `(H, W, 3)`:
-each entry of the result is `Σ_n w_n k(x, s_n)` at its pixel. (Tied exactly for `LinearKernel` on dyadic
+each entry of the result is `Σ_n w_n k(x, s_n)` at its pixel. Guard = the property's quantifier (1..4 supports, one weight
+per support): with NO supports the code reads `interpolation_weights[0]` / `supports[0]` out of bounds (garbage
+values, observed and recorded); the model's total definitions return 0 there, which is why the hypotheses are
+part of the statement. (Tied exactly for `LinearKernel` on dyadic
 float32 inputs, numba and plain; `exp` in `GaussianKernel` and fastmath reassociation are observed, 1e-5.) -/
 theorem kernel_loop_eq_plain_sum {F : Type} [CommSemiring F] (k : Pt → Pt → F) (ws : List F) (ss : List Pt)
+    (_hlen : ws.length = ss.length) (_hpos : 0 < ss.length)
     (sig : Signal) : sig.combine k ws ss = sig.pixels.map (plainSum k ws ss) :=
   combine_eq_plainSum k ws ss sig
 
@@ -349,6 +411,16 @@ theorem poly_matches_code : ∀ d ∈ Gen.polyDegrees,
     Gen.polyTable d = (polyExps d).map some ∧ Gen.polySizeTable d = some (polySize d) := by decide
 
 /-! ### non-vacuity -/
+
+open Darsia.Kern in
+/-- negation witnesses for the known finding `KernelInterpolation.update_model_parameters` with the kernel dof /
+default dofs: the model op raises TypeError where the property would need a usable object -/
+example : step (init 0) .paramsDefaultDofs = .error .type ∧
+    (run (init 0) [.update none (some [[1, 0, 0]]) (some [1 / 2]) false, .paramsKernelDof]).map (·.weights) = .error .type := by
+  decide +kernel
+
+/-- a resize that DROPS a label (1 × 4 map `[0,1,2,2]` → 1 × 2 keeps `[0,2]`): label 2 keeps its own scaling 30 -/
+example : hetCallResized [] [[0, 1, 2, 2]] [10, 20, 30] [0, 0, 0] 1 2 [1, 1] = [10, 30] := by decide +kernel
 
 /-- coarse call, then native resolution: the original stripes are back -/
 example : cacheRun [] [[1, 2, 1, 2], [1, 2, 1, 2]] [(1, 2), (2, 4)] = [[1, 2, 1, 2], [1, 2, 1, 2]] ∧
